@@ -21,7 +21,13 @@ Engine E1 (explicit-state BFS over publication histories on the real bi_merge / 
 A state is the history that reaches it; the canonical key is the store's rows sorted by (date, stamp) with NaN
 normalised + column names + dtypes + index name, the last stamp used (it decides the enabled ops) and the
 model's per-(date, stamp) summary (it decides every future model read).  bi_merge is a pure function of its
-arguments, so equal keys have equal futures.
+arguments, so equal keys have equal futures.  A re-merge edge that lands on a store with the identical
+fingerprint is a self-loop: its reads are those just checked and are not repeated.
+
+Suites: `history` (BFS, all 15 versions, depth 2 quick / 3 thorough), `onedate` (BFS one level deeper over the 3
+versions of date d1 only: a revert 1,2,1 needs three publications of one date), `listform` (the list form has
+its whole fan-out on one predecessor, so it is enumerated as complete histories by E2 and visited by the same
+visit(): bi_merge(None, [p, q]) in quick, additionally bi_merge(bi_merge(None, o), [p, q]) in thorough).
 """
 import datetime
 
